@@ -1,6 +1,9 @@
 /-
-The simp set `kmip_tags` (the tag constants of `KmipModel/DecodeTables.lean`, unfolded to their numbers when the
-readers of M14 are evaluated on the trees of M16) — a simp attribute has to be registered in a file of its own.
+Simp sets used when the readers of M14 are evaluated on the trees of M16 (a simp attribute has to be registered
+in a file of its own):
+  kmip_tags   the tag constants of `KmipModel/DecodeTables.lean`, unfolded to their numbers
+  rd_eval     the reader monad's combinators and the leaf lemmas
 -/
 import Lean.Meta.Tactic.Simp.RegisterCommand
 register_simp_attr kmip_tags
+register_simp_attr rd_eval
